@@ -14,7 +14,7 @@ CFG = {'p_coarse': 0.3, 'coarse_windows': True, 'coarse_any': True, 'p_periodic'
        'take_kinds': ['inside', 'whole', 'straddle_r', 'straddle_l', 'outside', 'outside'],
        'order_kinds': ['inside', 'inside', 'straddle', 'outside', 'outside', 'offgrid'],
        'kinds': {'SimpleContract': 2, 'Contract': 3, 'Transport': 2, 'Storage': 2, 'MultiCommodityContract': 1, 'OrderBook': 3,
-                 'ExtendedTransport': 2}}
+                 'ExtendedTransport': 2, 'ScaledAsset': 1}}
 
 
 def outside_window(rng, g):
